@@ -36,7 +36,15 @@ def boolFieldD (j : Json) (k : String) : Bool :=
 def natOfStr (s : String) : Nat := s.toNat?.getD 0
 def intOfStr (s : String) : Int := s.toInt?.getD 0
 
+structure JLeg where
+  src : String
+  dst : String
+  asset : String
+  amount : Nat
+  allow : String
+
 structure JReq where
+  legs : List JLeg := []
   task : String := ""
   kind : String := ""
   ledger : String := ""
@@ -57,7 +65,8 @@ structure JReq where
 
 partial def parseReq (j : Json) : Except String JReq := do
   let elems ← (← arrField j "elems").mapM parseReq
-  pure { task := optStrField j "task", kind := optStrField j "kind", ledger := optStrField j "ledger",
+  let legs := (← arrField j "legs").map (fun l => JLeg.mk (optStrField l "src") (optStrField l "dst") (optStrField l "asset") (natOfStr (optStrField l "amount")) (optStrField l "allow"))
+  pure { legs := legs, task := optStrField j "task", kind := optStrField j "kind", ledger := optStrField j "ledger",
          src := optStrField j "src", dst := optStrField j "dst", asset := optStrField j "asset",
          amount := natOfStr (optStrField j "amount"), allow := optStrField j "allow", force := boolFieldD j "force",
          ik := optStrField j "ik", reference := optStrField j "reference", txid := natFieldD j "txid",
@@ -194,10 +203,18 @@ structure Names where
   refs : List String := []
   hashes : List String := []
   ledgers : List String := []
+  accts : List String := []
 
-def Names.pair (n : Names) (acct asset : String) : Names × Nat :=
-  let (t, i) := intern n.pairs (acct ++ "/" ++ asset)
+def Names.pair (n : Names) (ledger acct asset : String) : Names × Nat :=
+  let (t, i) := intern n.pairs (ledger ++ "|" ++ acct ++ "/" ++ asset)
   ({ n with pairs := t }, i)
+
+/-- ids of the accounts (of one ledger), in address order -/
+def Names.acctIds (n : Names) (ledger : String) (addrs : List String) : Names × List Nat :=
+  let sorted := (addrs.eraseDups.toArray.qsort (· < ·)).toList
+  sorted.foldl (fun (acc : Names × List Nat) a =>
+    let (t, i) := intern acc.1.accts (ledger ++ "|" ++ a)
+    ({ acc.1 with accts := t }, acc.2 ++ [i])) (n, [])
 
 def Names.ik (n : Names) (k : String) : Names × Nat :=
   if k = "" then (n, 0) else
@@ -220,7 +237,8 @@ def Names.ledger (n : Names) (k : String) : Nat :=
 
 /-- canonical text of a request's input (what the idempotency hash covers) -/
 def inputText (r : JReq) : String :=
-  s!"{r.kind}|{r.src}|{r.dst}|{r.asset}|{r.amount}|{r.allow}|{r.force}|{r.reference}|{r.txid}|{r.withMetadata}"
+  let legs := String.intercalate ";" (r.legs.map (fun l => s!"{l.src},{l.dst},{l.asset},{l.amount},{l.allow}"))
+  s!"{r.kind}|{r.src}|{r.dst}|{r.asset}|{r.amount}|{r.allow}|{r.force}|{r.reference}|{r.txid}|{r.withMetadata}|{legs}"
 
 /-! ## programs -/
 
@@ -236,20 +254,44 @@ structure Ctx where
 def ledgerOf (c : Case) (r : JReq) : String :=
   if r.ledger ≠ "" then r.ledger else (c.ledgers.head?.map (·.name)).getD ""
 
+def allowOf (src allow : String) (force : Bool) : Allow :=
+  if src = "world" || force || allow = "unbounded" then .unbounded else .bounded (natOfStr allow)
+
+def sortStrs (xs : List String) : List String := (xs.toArray.qsort (· < ·)).toList
+
 def mkSend (cx : Ctx) (c : Case) (r : JReq) : Ctx × Send :=
   let n := cx.names
-  let l := n.ledger (ledgerOf c r)
-  let (n, src) := n.pair r.src r.asset
-  let (n, dst) := n.pair r.dst r.asset
+  let lname := ledgerOf c r
+  let l := n.ledger lname
+  let (n, src) := n.pair lname r.src r.asset
+  let (n, dst) := n.pair lname r.dst r.asset
   let (n, ik) := n.ik r.ik
   let (n, rf) := n.ref r.reference
   let (n, h) := n.hash (inputText r)
-  let allow : Allow :=
-    if r.src = "world" || r.force || r.allow = "unbounded" then .unbounded
-    else .bounded (natOfStr r.allow)
+  let all : List JLeg := { src := r.src, dst := r.dst, asset := r.asset, amount := r.amount, allow := r.allow } :: r.legs
+  let (n, accts) := n.acctIds lname ((all.map (fun g => [g.src, g.dst])).flatten)
+  let allow := allowOf r.src r.allow r.force
+  -- further statements of the script
+  let (n, legs) := r.legs.foldl (fun (a : Names × List Leg) g =>
+    let (n, ps) := a.1.pair lname g.src g.asset
+    let (n, pd) := n.pair lname g.dst g.asset
+    (n, a.2 ++ [{ src := ps, dst := pd, amt := g.amount, allow := allowOf g.src g.allow r.force }])) (n, [])
+  let multi := !r.legs.isEmpty
+  -- GetBalances: the distinct bounded sources, sorted by (account, asset)
+  let boundedNames := sortStrs ((all.filter (fun g => match allowOf g.src g.allow r.force with | .bounded _ => true | .unbounded => false)).map (fun g => g.src ++ "/" ++ g.asset)).eraseDups
+  let (n, readPairs) := boundedNames.foldl (fun (a : Names × List Nat) nm =>
+    let (t, i) := intern a.1.pairs (lname ++ "|" ++ nm); ({ a.1 with pairs := t }, a.2 ++ [i])) (n, [])
+  -- UpdateVolumes: one row per touched pair, sorted
+  let touched := sortStrs ((all.map (fun g => [g.src ++ "/" ++ g.asset, g.dst ++ "/" ++ g.asset])).flatten).eraseDups
+  let (n, dsAll) := touched.foldl (fun (a : Names × List (Nat × Int)) nm =>
+    let (t, i) := intern a.1.pairs (lname ++ "|" ++ nm)
+    let d : Int := all.foldl (fun (acc : Int) g =>
+      acc + (if g.dst ++ "/" ++ g.asset = nm then (g.amount : Int) else 0) - (if g.src ++ "/" ++ g.asset = nm then (g.amount : Int) else 0)) 0
+    ({ a.1 with pairs := t }, a.2 ++ [(i, d)])) (n, [])
   ({ cx with names := n },
    { l := l, sync := cx.sync l, src := src, dst := dst, srcFirst := decide (r.src < r.dst), amt := r.amount,
-     allow := allow, ik := ik, hash := h, ref := rf })
+     allow := allow, ik := ik, hash := h, ref := rf, accts := accts, legs := legs,
+     readPairs := if multi then readPairs else [], dsAll := if multi then dsAll else [] })
 
 def mkRevert (cx : Ctx) (c : Case) (r : JReq) : Ctx × Revert :=
   let n := cx.names
@@ -262,7 +304,7 @@ def mkRevert (cx : Ctx) (c : Case) (r : JReq) : Ctx × Revert :=
      dstWorld := dstWorld, force := r.force, guarded := cx.guarded, ik := ik, hash := h })
 
 /-- logs of the source ledger as the import stream (from the REAL exported state) -/
-def mkImpLogs (cx : Ctx) (st : JState) : Ctx × List ImpLog :=
+def mkImpLogs (cx : Ctx) (ledger : String) (st : JState) : Ctx × List ImpLog :=
   st.logs.foldl (fun (acc : Ctx × List ImpLog) lg =>
     let (cx, out) := acc
     match st.txs.find? (·.id = lg.tx) with
@@ -272,10 +314,11 @@ def mkImpLogs (cx : Ctx) (st : JState) : Ctx × List ImpLog :=
       let (n, ik) := n.ik lg.ik
       let (n, ds) := t.postings.foldl (fun (a : Names × List (Nat × Int)) p =>
         let (src, dst, asset, amt) := p
-        let (n, ps) := a.1.pair src asset
-        let (n, pd) := n.pair dst asset
+        let (n, ps) := a.1.pair ledger src asset
+        let (n, pd) := n.pair ledger dst asset
         (n, a.2 ++ (if decide (src < dst) then [(ps, - (amt : Int)), (pd, (amt : Int))] else [(pd, (amt : Int)), (ps, - (amt : Int))]))) (n, [])
-      ({ cx with names := n }, out ++ [{ id := lg.id, tx := lg.tx, ref := rf, ik := ik, hash := 0, ds := ds }])
+      let (n, accts) := n.acctIds ledger ((t.postings.map (fun p => [p.1, p.2.1])).flatten)
+      ({ cx with names := n }, out ++ [{ id := lg.id, tx := lg.tx, ref := rf, ik := ik, hash := 0, ds := ds, accts := accts }])
     | none => (cx, out)) (cx, [])
 
 /-- the program of a request; `inUse`: the ledger state cached by the state tracker -/
@@ -290,7 +333,7 @@ def mkProg (cx : Ctx) (c : Case) (r : JReq) (inUse : Nat → Bool) : Ctx × Prog
     (cx, bulkProg (inUse l) qs)
   | "import" =>
     let st := (c.state.lookup r.from_).getD {}
-    let (cx, logs) := mkImpLogs cx st
+    let (cx, logs) := mkImpLogs cx (ledgerOf c r) st
     (cx, importProg l (cx.sync l) logs)
   | "blocks" => (cx, blocksProg l r.blockSize)
   | _ => (cx, .done { err := "unknown-kind" })
@@ -312,7 +355,7 @@ def modelKind (k : String) : Option String :=
   match k with
   | "begin" | "commit" | "rollback" | "savepoint" | "release" | "rollbackTo"
   | "lockLedgerX" | "lockLedgerS" | "unlockLedgerS" | "updateState" | "setval"
-  | "readIK" | "getBalances" | "updateVolumes" | "insertTx" | "advLockLog" | "insertLog"
+  | "readIK" | "getBalances" | "updateVolumes" | "insertTx" | "upsertAccounts" | "advLockLog" | "insertLog"
   | "revertUpdate" | "createBlocks" => some k
   | "readLedgerState" | "openLedger" => some "readState"
   | "readLogs" => some "readLastLog"
@@ -385,7 +428,7 @@ def sortBy {α : Type} (key : α → Nat) (xs : List α) : List α :=
 def predecessor (ids : List Nat) (id : Nat) : Nat := maxId (ids.filter (· < id))
 
 /-- differences between the model's committed state and the real one for ledger `l` -/
-def stateDiff (n : Names) (w : World) (l : Nat) (sync : Bool) (st : JState) : List String :=
+def stateDiff (n : Names) (w : World) (l : Nat) (lname : String) (sync : Bool) (st : JState) : List String :=
   let txs := sortBy (·.id) (w.txs.filter (fun t => t.l = l && t.com))
   let logs := sortBy (·.id) (w.logs.filter (fun e => e.l = l && e.com))
   let d1 := if txs.map (·.id) = st.txs.map (·.id) then [] else [s!"tx ids: model {txs.map (·.id)} real {st.txs.map (·.id)}"]
@@ -403,10 +446,10 @@ def stateDiff (n : Names) (w : World) (l : Nat) (sync : Bool) (st : JState) : Li
     if logs.map (fun e => decide (e.prev = predecessor ids e.id)) = st.logs.map (fun g => decide (g.hash = g.recomputed)) then []
     else ["hash chain: model predecessors vs. real recomputation differ"]
   let d8 := n.pairs.zipIdx.filterMap (fun (name, i) =>
+    if !name.startsWith (lname ++ "|") then none else
     let m := (w.vols (i + 1)).com
-    let r := st.vols.lookup name
-    if n.ledgers.length > 1 then none   -- pair ids are per case, not per ledger: compared only for single-ledger cases
-    else if m = r then none else some s!"balance {name}: model {m} real {r}")
+    let r := st.vols.lookup (name.drop (lname.length + 1)).toString
+    if m = r then none else some s!"balance {name}: model {m} real {r}")
   -- blocks: ranges, and which of them are stale (hash computed without a log of the range: the model's
   -- ghost `ids` vs. the real re-digest)
   let comIds := logs.map (·.id)
@@ -427,9 +470,9 @@ structure ModelRun where
 def sidOfSetup (i : Nat) : Sid := 100 + i
 def sidOfPost (i : Nat) : Sid := 200 + i
 
-def postingOf (cx : Ctx) (r : JReq) : Ctx × (Nat × Nat × Bool × Nat × Bool) :=
-  let (n, src) := cx.names.pair r.src r.asset
-  let (n, dst) := n.pair r.dst r.asset
+def postingOf (cx : Ctx) (lname : String) (r : JReq) : Ctx × (Nat × Nat × Bool × Nat × Bool) :=
+  let (n, src) := cx.names.pair lname r.src r.asset
+  let (n, dst) := n.pair lname r.dst r.asset
   ({ cx with names := n }, (src, dst, decide (r.src < r.dst), r.amount, decide (r.dst = "world")))
 
 def runModel (c : Case) (guarded : Bool := true) : ModelRun :=
@@ -452,12 +495,12 @@ def runModel (c : Case) (guarded : Bool := true) : ModelRun :=
     -- remember the posting of every transaction created (for reverts)
     let cx := if real.err ≠ "" then cx else
       match r.kind with
-      | "send" => let (cx, p) := postingOf cx r; { cx with postings := (real.tx, p) :: cx.postings }
+      | "send" => let (cx, p) := postingOf cx (ledgerOf c r) r; { cx with postings := (real.tx, p) :: cx.postings }
       | "revert" =>
         match cx.postings.lookup r.txid with
         | some (src, dst, sf, amt, _) =>
           -- the revert transaction moves `amt` from dst back to src
-          let newDstWorld := ((cx.names.pairs[src - 1]?).map (fun (nm : String) => nm.startsWith "world/")).getD false
+          let newDstWorld := ((cx.names.pairs[src - 1]?).map (fun (nm : String) => decide ((nm.splitOn "|world/").length > 1))).getD false
           { cx with postings := (real.tx, (dst, src, !sf, amt, newDstWorld)) :: cx.postings }
         | none => cx
       | _ => cx
@@ -492,7 +535,7 @@ def runModel (c : Case) (guarded : Bool := true) : ModelRun :=
   let commitDiff := if mCommits = c.commits then [] else [s!"commit order: model {mCommits} real {c.commits}"]
   let stDiffs := (c.ledgers.zipIdx.map (fun (l, i) =>
     match c.state.lookup l.name with
-    | some st => stateDiff cx.names w (i + 1) (l.hashLogs = "SYNC") st
+    | some st => stateDiff cx.names w (i + 1) l.name (l.hashLogs = "SYNC") st
     | none => [s!"no state for ledger {l.name}"])).flatten
   let unfinished := (c.reqs.filterMap (fun r => if (w.resp (taskSid c r.task)).isNone then some s!"{r.task} unfinished in the model" else none))
   let all := sdiff ++ (match rp.diverged with | some d => [d] | none => respDiffs ++ postDiffs ++ commitDiff ++ unfinished ++ stDiffs)
@@ -537,12 +580,26 @@ def balOf (m : List (String × Int)) (k : String) : Int := (m.lookup k).getD 0
 def addBal (m : List (String × Int)) (k : String) (d : Int) : List (String × Int) :=
   if m.any (·.1 = k) then m.map (fun (k', v) => if k' = k then (k', v + d) else (k', v)) else m ++ [(k, d)]
 
+/-- the postings a successful request created, each with the allowance of its source
+    (`none` = unbounded: world, unbounded overdraft, forced) -/
+def legsOfReq (c : Case) (r : JReq) : List (String × String × String × Nat × Option Int) :=
+  match r.kind with
+  | "send" =>
+    let al := fun (src allow : String) => (if src = "world" || r.force || allow = "unbounded" then none else some ((natOfStr allow : Nat) : Int) : Option Int)
+    (r.src, r.dst, r.asset, r.amount, al r.src r.allow) :: r.legs.map (fun g => (g.src, g.dst, g.asset, g.amount, al g.src g.allow))
+  | "revert" =>
+    match postingOfReq c r with
+    | some (s, d, a, m) => [(s, d, a, m, if s = "world" || r.force then none else some 0)]
+    | none => []
+  | _ => []
+
 /-- C06 on the real output: replay the committed transactions in COMMIT order; for every bounded
-    source, balance after ≥ min (balance at commit) (−allowance). -/
+    source pair of a transaction, balance after ≥ min (balance at commit) (−allowance). -/
 def propC06 (c : Case) : PropRes :=
-  -- balances after the setup (from the setup requests that succeeded)
+  let main := (c.ledgers.head?.map (·.name)).getD ""
+  -- balances after the setup (from the setup requests that succeeded, on the ledger under test)
   let init := (c.setup.zip c.setupResps).foldl (fun (m : List (String × Int)) (r, rs) =>
-    if rs.err ≠ "" then m else
+    if rs.err ≠ "" || ledgerOf c r ≠ main then m else
     match r.kind with
     | "send" => addBal (addBal m (r.src ++ "/" ++ r.asset) (- (r.amount : Int))) (r.dst ++ "/" ++ r.asset) r.amount
     | _ => m) []
@@ -552,36 +609,40 @@ def propC06 (c : Case) : PropRes :=
     let r := reqFor c task
     let rs := respFor c task
     if rs.err ≠ "" || rs.hit then (m, out) else
-    match postingOfReq c r with
-    | none => (m, out)
-    | some (src, dst, asset, amt) =>
-      let ks := src ++ "/" ++ asset
+    let legs := legsOfReq c r
+    let m' := legs.foldl (fun m (src, dst, asset, amt, _) =>
+      addBal (addBal m (src ++ "/" ++ asset) (- (amt : Int))) (dst ++ "/" ++ asset) amt) m
+    -- the bounded source pairs, each with its largest allowance
+    let srcs := (legs.filterMap (fun (src, _, asset, _, al) => al.map (fun _ => src ++ "/" ++ asset))).eraseDups
+    let checks := srcs.map (fun ks =>
+      let a : Int := legs.foldl (fun (acc : Int) (src, _, asset, _, al) =>
+        if src ++ "/" ++ asset = ks then (match al with | some x => if x > acc then x else acc | none => acc) else acc) 0
       let before := balOf m ks
-      let after := before - amt
-      let m := addBal (addBal m ks (- (amt : Int))) (dst ++ "/" ++ asset) amt
-      -- allowance of the source: none = unbounded (world, unbounded overdraft, forced)
-      let allow : Option Int :=
-        if src = "world" || r.force then none
-        else if r.kind = "revert" then some 0
-        else if r.allow = "unbounded" then none
-        else some (natOfStr r.allow : Nat)
-      match allow with
-      | none => (m, out ++ [{ tags := ["unbounded-source"] }])
-      | some a =>
-        let bound := if before < -a then before else -a
-        if after ≥ bound then (m, out ++ [{ tags := ["bounded-source-ok"] }])
-        else
-          let never := !(usedBefore.contains ks)
-          let sg := if never then "C06:never-used-pair:second-writer-locks-nothing-reads-0" else "C06:existing-row:overdrawn-beyond-allowance"
-          let nt := s!"{task} took {ks} from {before} to {after}, allowance {a}"
-          let pr : PropRes := { ok := false, sig := sg, note := nt, tags := [if never then "overdrawn-never-used" else "overdrawn-existing"] }
-          (m, out ++ [pr])) (init, [])
+      let after := balOf m' ks
+      let bound := if before < -a then before else -a
+      if after ≥ bound then ({ tags := ["bounded-source-ok"] } : PropRes)
+      else
+        let never := !(usedBefore.contains ks)
+        let sg := if never then "C06:never-used-pair:second-writer-locks-nothing-reads-0" else "C06:existing-row:overdrawn-beyond-allowance"
+        let nt := s!"{task} took {ks} from {before} to {after}, allowance {a}"
+        { ok := false, sig := sg, note := nt, tags := [if never then "overdrawn-never-used" else "overdrawn-existing"] })
+    let unb : List PropRes := if legs.any (fun (_, _, _, _, al) => al.isNone) then [{ tags := ["unbounded-source"] }] else []
+    let multi : List PropRes := if legs.length > 1 then [{ tags := ["multi-statement-script"] }] else []
+    (m', out ++ checks ++ unb ++ multi)) (init, [])
   -- bookkeeping check: the replayed balances are the real final volumes
   let st := ((c.ledgers.head?.bind (fun l => c.state.lookup l.name)).getD {})
   let bad := final.filter (fun (k, v) => balOf st.vols k ≠ v)
   let book : PropRes := if bad.isEmpty then {} else
     { ok := false, sig := "C06:final-volumes-differ-from-commit-order-fold", note := s!"{bad.map (·.1)}" }
-  firstFail (res ++ [book])
+  -- the other ledgers of the bucket are untouched by the tasks
+  let others : List PropRes := (c.ledgers.drop 1).map (fun l =>
+    let expect := (c.setup.zip c.setupResps).foldl (fun (m : List (String × Int)) (r, rs) =>
+      if rs.err ≠ "" || ledgerOf c r ≠ l.name || r.kind ≠ "send" then m else
+      addBal (addBal m (r.src ++ "/" ++ r.asset) (- (r.amount : Int))) (r.dst ++ "/" ++ r.asset) r.amount) []
+    let stl := (c.state.lookup l.name).getD {}
+    if expect.all (fun (k, v) => balOf stl.vols k = v) then { tags := ["other-ledger-untouched"] }
+    else { ok := false, sig := "C06:other-ledger-of-the-bucket-changed", note := l.name })
+  firstFail (res ++ [book] ++ others)
 
 /-- C09 on the real output: every stored hash recomputes (real `Log.ComputeHash`) over the previous log by id,
     hence no two logs chain from the same predecessor -/
@@ -774,13 +835,16 @@ def handle (inp out : Json) : Except String Verdict := do
   let respTags := c.resps.map (fun r => "resp:" ++ (if r.err = "" then (if r.hit then "hit" else "ok") else r.err))
   let tags := [s!"tasks:{c.reqs.length}", if waits > 0 then "waited" else "no-wait"] ++ respTags ++ p.tags ++
     (if c.stuck.isEmpty then [] else ["stuck"]) ++
-    (if c.events.any (·.res = "error:40P01") then ["deadlock"] else [])
+    (if c.events.any (·.res = "error:40P01") then ["deadlock"] else []) ++
+    (if c.events.any (fun e => e.stmt = "upsertAccounts" && e.res = "error:23505") then ["upsertAccounts-first-use-race"] else [])
   let agree := m.diverged.isNone
   pure { model := m.model, agree := agree, prop := p.ok, propModel := true,
          nontrivial := waits > 0 || ((c.workload = "ids" || c.workload = "blocks") && c.commits.eraseDups.length ≥ 2),
          tags := tags.eraseDups,
-         note := if !p.ok then p.note else (m.diverged.getD ""),
-         sig := if !p.ok then p.sig else if agree then ""
+         note := if !p.ok then p.note ++ (if agree then "" else " || model: " ++ m.diverged.getD "") else (m.diverged.getD ""),
+         -- a failing predicate keeps its (possibly known) signature only when the abstract model reproduces
+         -- the real behaviour; otherwise it is something the known finding does not explain
+         sig := if !p.ok then (if agree then p.sig else p.sig ++ ":NOT-reproduced-by-the-model") else if agree then ""
            else if ((m.diverged.getD "").splitOn "upsertAccounts").length > 1 && ((m.diverged.getD "").splitOn "23505").length > 1
              then "sched:upsertAccounts-concurrent-first-use-of-an-account:23505-not-retried"
            else "sched:model-real-divergence" }
